@@ -5,30 +5,48 @@
 (* the first call on a room is join, later ones rejoin/leave, a new call on a room   *)
 (* starts only after the previous one was answered or cancelled in the script, an    *)
 (* error answers a call that was made, at most MaxNoise steps are noise (presence of *)
-(* another nick, of a never-joined room, invitations, unrelated stanzas).            *)
+(* another nick, of a never-joined room, invitations, unrelated stanzas).  InvFull:   *)
+(* the noise holds every invitation message of InvAlphabet (position of the muc#user *)
+(* payload among the children, the legacy / direct jabber:x:conference element, 0-2  *)
+(* <invite/>, password), otherwise only the plain ones.  At most MaxSplit stanzas    *)
+(* are delivered in two pieces (cut kinds Cuts): the remainder follows with a "rest" *)
+(* step after any calls / cancellations, before the room sends anything else.        *)
 EXTENDS Integers, Sequences, FiniteSets, TLC, Json, SequencesExt
 
-CONSTANTS ERooms, MaxLen, MaxCalls, MaxNoise, OutFile
+CONSTANTS ERooms, MaxLen, MaxCalls, MaxNoise, InvFull, MaxSplit, Cuts, OutFile
 
-NoSt == [ty |-> "-", room |-> "-", nick |-> "-", call |-> "-", n |-> 0]
-St(ty, r, nk, c, k) == [ty |-> ty, room |-> r, nick |-> nk, call |-> c, n |-> k]
-CallStep(op, r) == [op |-> op, room |-> r, call |-> "-", st |-> NoSt]
-CancelStep(c) == [op |-> "cancel", room |-> "-", call |-> c, st |-> NoSt]
-SendStep(s) == [op |-> "send", room |-> "-", call |-> "-", st |-> s]
+NoSt == [ty |-> "-", room |-> "-", nick |-> "-", call |-> "-", n |-> 0, lay |-> <<>>, pw |-> FALSE]
+St(ty, r, nk, c, k) == [ty |-> ty, room |-> r, nick |-> nk, call |-> c, n |-> k,
+                        lay |-> IF ty = "inv" THEN <<"u">> ELSE <<>>, pw |-> FALSE]
+Inv(lay, k, pw) == [ty |-> "inv", room |-> "r1", nick |-> "-", call |-> "-", n |-> k, lay |-> lay, pw |-> pw]
+CallStep(op, r) == [op |-> op, room |-> r, call |-> "-", st |-> NoSt, cut |-> 0]
+CancelStep(c) == [op |-> "cancel", room |-> "-", call |-> c, st |-> NoSt, cut |-> 0]
+SendStep(s) == [op |-> "send", room |-> "-", call |-> "-", st |-> s, cut |-> 0]
+RestStep == [op |-> "rest", room |-> "-", call |-> "-", st |-> NoSt, cut |-> 0]
 Cid(i) == CASE i = 1 -> "c1" [] i = 2 -> "c2" [] i = 3 -> "c3" [] i = 4 -> "c4" [] i = 5 -> "c5" [] OTHER -> "c6"
 
-Noise == {St("av", "r1", "ot", "-", 0), St("un", "r1", "ot", "-", 0), St("av", "rx", "me", "-", 0),
+(* invitation messages: every order of an optional body, the muc#user payload and an optional *)
+(* jabber:x:conference element; direct invitations alone / after a body / after a thread       *)
+HasU(lay) == \E i \in 1..Len(lay) : lay[i] = "u"
+Layouts == {<<"u">>, <<"b", "u">>, <<"u", "b">>, <<"c", "u">>, <<"u", "c">>,
+            <<"b", "u", "c">>, <<"b", "c", "u">>, <<"u", "b", "c">>, <<"u", "c", "b">>, <<"c", "b", "u">>, <<"c", "u", "b">>,
+            <<"c">>, <<"b", "c">>, <<"c", "b">>, <<"t", "b", "c">>, <<"t", "u">>}
+InvAlphabet == {Inv(l, k, pw) : l \in {l \in Layouts : HasU(l)}, k \in 0..2, pw \in BOOLEAN}
+               \cup {Inv(l, 0, pw) : l \in {l \in Layouts : ~HasU(l)}, pw \in BOOLEAN}
+BaseNoise == {St("av", "r1", "ot", "-", 0), St("un", "r1", "ot", "-", 0), St("av", "rx", "me", "-", 0),
           St("un", "rx", "me", "-", 0), St("inv", "r1", "-", "-", 0), St("inv", "r1", "-", "-", 1),
           St("inv", "r1", "-", "-", 2), St("oth", "-", "-", "-", 0), St("oth", "-", "-", "-", 1)}
+Noise == IF InvFull THEN InvAlphabet \cup {St("oth", "-", "-", "-", 0)} ELSE BaseNoise
 
 (* script state: n calls made; has: rooms with a channel; open[r]: the unanswered call on r *)
 (* ([c, k]) or None; ers: calls already answered with an error; noise: noise steps so far    *)
 NoCall == [c |-> "-", k |-> "-"]
-S0 == [n |-> 0, has |-> {}, open |-> [r \in ERooms |-> NoCall], ers |-> {}, roomOf |-> <<>>, noise |-> 0]
+S0 == [n |-> 0, has |-> {}, open |-> [r \in ERooms |-> NoCall], ers |-> {}, roomOf |-> <<>>, noise |-> 0,
+       partial |-> FALSE, nsplit |-> 0]
 
 Close(ss, r) == [ss EXCEPT !.open[r] = NoCall]
-Ext(ss) ==
-  \* calls
+(* calls and cancellations *)
+CallSteps(ss) ==
   UNION {IF ss.open[r] = NoCall /\ ss.n < MaxCalls
          THEN {<<CallStep(k, r), [ss EXCEPT !.n = @ + 1, !.has = @ \cup {r}, !.open[r] = [c |-> Cid(ss.n + 1), k |-> k],
                                             !.roomOf = Append(@, r)]>>
@@ -36,8 +54,10 @@ Ext(ss) ==
          ELSE {} : r \in ERooms}
   \* cancellation of the open call
   \cup {<<CancelStep(ss.open[r].c), Close(ss, r)>> : r \in {r \in ERooms : ss.open[r] # NoCall}}
+(* the stanzas the room may send next (in one piece) *)
+Sends(ss) ==
   \* self-presences
-  \cup {<<SendStep(St("av", r, "me", "-", 0)), IF ss.open[r].k \in {"join", "rejoin"} THEN Close(ss, r) ELSE ss>> : r \in ERooms}
+  {<<SendStep(St("av", r, "me", "-", 0)), IF ss.open[r].k \in {"join", "rejoin"} THEN Close(ss, r) ELSE ss>> : r \in ERooms}
   \cup {<<SendStep(St("un", r, "me", "-", 0)), IF ss.open[r].k = "leave" THEN Close(ss, r) ELSE ss>> : r \in ERooms}
   \* error answers
   \cup {<<SendStep(St("er", ss.roomOf[i], "me", Cid(i), 0)),
@@ -45,10 +65,18 @@ Ext(ss) ==
           : i \in {i \in 1..ss.n : i \notin ss.ers}}
   \* noise
   \cup (IF ss.noise < MaxNoise THEN {<<SendStep(s), [ss EXCEPT !.noise = @ + 1]>> : s \in Noise} ELSE {})
+(* the same stanzas with only a first piece delivered now *)
+SplitSends(ss) ==
+  IF ss.nsplit < MaxSplit
+  THEN {<<[x[1] EXCEPT !.cut = k], [x[2] EXCEPT !.partial = TRUE, !.nsplit = @ + 1]>> : x \in Sends(ss), k \in Cuts}
+  ELSE {}
+Ext(ss) ==
+  CallSteps(ss) \cup (IF ss.partial THEN {<<RestStep, [ss EXCEPT !.partial = FALSE]>>} ELSE Sends(ss) \cup SplitSends(ss))
 
+(* every non-empty script in which no stanza is left half delivered *)
 RECURSIVE Gen(_, _, _)
 Gen(seq, ss, k) ==
-  (IF seq = <<>> THEN {} ELSE {seq})
+  (IF seq = <<>> \/ ss.partial THEN {} ELSE {seq})
   \cup (IF k = 0 THEN {} ELSE UNION {Gen(Append(seq, x[1]), x[2], k - 1) : x \in Ext(ss)})
 
 Scripts == Gen(<<>>, S0, MaxLen)
